@@ -18,6 +18,10 @@ def check_case(ctx, r, full):
     node = project.build(r["tree"])
     want = r["type"]
     ctx.traces += 1
+    if want == "IllTyped":
+        if full:
+            ill_typed(ctx, r, node)
+        return
     try:
         got = ty.infer_type(node)
     except Exception as e:  # noqa
@@ -68,6 +72,27 @@ def check_case(ctx, r, full):
         ctx.nontriv(r["tree"])
         if gname is not None:
             ctx.sample({"tree": r["tree"], "type": want, "inferred": gname}, cap=5)
+
+
+def ill_typed(ctx, r, node):
+    """a call that is ill-typed under every overload (Typing!MustReject): every SQL dialect's type check refuses it"""
+    from odata_query import ast, exceptions as ex
+    from odata_query.sql import AstToAthenaSqlVisitor, AstToSqliteSqlVisitor, AstToSqlVisitor
+    fn = r["tree"][1][2]
+    wrapped = node if fn in ("contains", "startswith", "endswith") else ast.Compare(ast.Eq(), node, ast.String("a") if fn == "substring" else ast.Integer("1"))
+    for nm, V in (("sql", AstToSqlVisitor), ("sqlite", AstToSqliteSqlVisitor), ("athena", AstToAthenaSqlVisitor)):
+        if nm in r.get("exempt", []):
+            continue
+        ctx.traces += 1
+        try:
+            out = V().visit(wrapped)
+        except ex.ODataException:
+            continue
+        except Exception as e:  # noqa
+            ctx.violation({"what": "ill-typed-call-crashes", "backend": nm, "fn": fn, "exc": type(e).__name__}, {"case": r, "exc": str(e)[:200]})
+            continue
+        ctx.violation({"what": "backend-accepts-ill-typed", "backend": nm, "fn": fn}, {"case": r, "output": str(out)[:300]})
+    ctx.nontriv(r["tree"])
 
 
 ORM_VISITORS = []
